@@ -668,9 +668,21 @@ def build_node(world, modname, node, ns):
         suite = loader.loadTestsFromTestCase(cls)
         return suite
     if node['t'] == 'doctest':
+        # docstring examples of generated functions of this module
         import doctest
-        m = sys.modules[modname]
+        import types
+        m = types.ModuleType(modname)
+        m.__file__ = sys.modules[modname].__file__
+        for d in node.get('docs', []):
+            exec('def %s():\n    pass\n' % d['name'], m.__dict__)
+            m.__dict__[d['name']].__doc__ = d['doc']
         return doctest.DocTestSuite(m)
+    if node['t'] == 'docfile':
+        import doctest
+        base = os.path.dirname(os.environ['ZTR_WORLD'])
+        return doctest.DocFileSuite(
+            *[os.path.join(base, f) for f in node['files']],
+            module_relative=False)
     suite = unittest.TestSuite()
     if node.get('layer') is not None:
         if node.get('layer_as_str'):
